@@ -396,10 +396,21 @@ func runForcedRobust(kind string, in []string) []string {
 		return false
 	}
 	for i := 0; i < 3 && suspicious(outs); i++ {
+		if outs[0] == "deadlock" && (i >= 1 || deadlocksConfirmed >= 2) {
+			// a deadlock judgement (nothing finishes although every party runs freely) is confirmed once with
+			// tenfold deadlines; after two confirmed ones in this run further ones are reported as first seen,
+			// so that a tree that really deadlocks does not eat the whole time budget
+			break
+		}
 		outs = runForced(kind, in, 10)
+	}
+	if len(outs) > 0 && outs[0] == "deadlock" {
+		deadlocksConfirmed++
 	}
 	return outs
 }
+
+var deadlocksConfirmed int
 
 func runForced(kind string, in []string, scale int) []string {
 	var capv, maxkb int
